@@ -153,6 +153,60 @@ def render_any(sc, inherit=False):
     return eng.render_source(v)
 
 
+def split_point(sc):
+    """smallest k such that the first k transitions already reach every state from the initial one (the
+    base class must be a valid machine on its own); None when no proper prefix does"""
+    for k in range(1, len(sc["trans"])):
+        reach, frontier = {sc["initial"]}, [sc["initial"]]
+        while frontier:
+            x = frontier.pop()
+            for t in sc["trans"][:k]:
+                if t["s"] == x and t["t"] not in reach:
+                    reach.add(t["t"])
+                    frontier.append(t["t"])
+        if len(reach) == sc["n"]:
+            return k
+    return None
+
+
+def render_split(sc, k):
+    """class Base declares the states and the first k transitions; class M(Base) adds the others,
+    written from the inherited states (`Base.s1.to(Base.s2, event=...)`), extending inherited events"""
+    v = copy.deepcopy(sc)
+    v["trans"] = sc["trans"][:k]
+    v["also_guards"] = sc["trans"][k:]
+    v.update(evstyle="str", tstyle="to", itself=False, sstyle="attr", inherit=False, mixed=None, decor=None)
+    src = eng.render_source(v)
+    head, rest = src.split("class M(StateMachine):", 1)
+    body, tail = rest.split("\nclass Mdl", 1)
+    lines = body.split("\n")
+    # the class body: states / transitions first, then the methods; the methods move to the subclass
+    first_def = next((i for i, ln in enumerate(lines) if ln.lstrip().startswith(("def ", "async def "))), len(lines))
+    decl, meths = lines[:first_def], lines[first_def:]
+
+    def nl(l):
+        return "[" + ", ".join(repr(eng.cbname(nm)) for nm in l) + "]"
+    extra = []
+    for t in sc["trans"][k:]:
+        kw = ["event=" + repr(" ".join(eng.evname(e) for e in t["ev"]))]
+        if t["int"]:
+            kw.append("internal=True")
+        if t["val"]:
+            kw.append(f"validators={nl(t['val'])}")
+        conds = [nm for nm, b_ in t["cond"] if b_]
+        unl = [nm for nm, b_ in t["cond"] if not b_]
+        if conds:
+            kw.append(f"cond={nl(conds)}")
+        if unl:
+            kw.append(f"unless={nl(unl)}")
+        for key in ("before", "on", "after"):
+            if t[key]:
+                kw.append(f"{key}={nl(t[key])}")
+        extra.append(f"    Base.s{t['s']}.to(Base.s{t['t']}, {', '.join(kw)})")
+    return (head + "class Base(StateMachine):" + "\n".join(decl) + "\n\nclass M(Base):\n" + "\n".join(extra) + "\n"
+            + "\n".join(meths) + "\nclass Mdl" + tail)
+
+
 def run_source(sc, src):
     """eng.run_impl with a given source text"""
     orig = eng.render_source
@@ -217,6 +271,22 @@ def run_impl(sc):
                     bad.append([label, "behaviour differs"])
             except Exception as e:  # noqa: BLE001
                 bad.append([label, f"{type(e).__name__}: {e}"])
+        k = split_point(sc) if sc.get("split") else None
+        if k is not None:
+            label = f"base class with the first {k} transitions, subclass adding the others"
+            try:
+                src = render_split(sc, k)
+                ns4 = {}
+                exec(compile(src, "<c15s>", "exec"), ns4)  # noqa: S102
+                ss = structure(ns4["M"])
+                os_ = run_source(sc, src)
+                nstyles += 1
+                if ss != sbase:
+                    bad.append([label, "structure differs: " + ", ".join(k_ for k_ in sbase if sbase[k_] != ss[k_])])
+                elif canon_obs(os_) != canon_obs(base):
+                    bad.append([label, "behaviour differs"])
+            except Exception as e:  # noqa: BLE001
+                bad.append([label, f"{type(e).__name__}: {e}"])
     return {"base": base, "bad": bad[:6], "styles": nstyles}
 
 
@@ -240,6 +310,7 @@ def generate(rng, tier):
             add_any(sc, rng)
         if rng.random() < 0.5:
             inject_decor_event(sc, rng)       # after add_any: the fresh action belongs to that event alone
+        sc["split"] = not sc.get("any") and not sc.get("values") and rng.random() < 0.5
         sc["variants"] = [{k: v[k] for k in ("evstyle", "tstyle", "itself", "sstyle", "inherit", "mixed", "decor") if k in v}
                           for v in variants(sc, rng, 10 if tier == "quick" else 24)]
         scs.append(sc)
